@@ -34,9 +34,10 @@ def _mods():
 class Problem:
     """Gaussian likelihood in a box prior with a closed-form Gaussian 'flow' as proposal"""
 
-    def __init__(self, dims=2, scale=1.0, seed=1, box=10.0, fail_at=None):
+    def __init__(self, dims=2, scale=1.0, seed=1, box=10.0, fail_at=None, hole=None):
         xnp, Flow, MiniPCNSMC, SMCSamples, Samples = _mods()
         self.dims, self.scale, self.box = dims, scale, box
+        self.hole = hole          # likelihood is -inf (zero) for x_0 > hole: particles inside the prior support that carry no weight
         self.calls = []          # (kind, n, prior_present, prior_matches)
         self.n_like_points = 0
         self.fail_at = fail_at   # raise at this likelihood call index
@@ -82,7 +83,10 @@ class Problem:
         return np.where((np.abs(x) <= self.box).all(-1), -self.dims * math.log(2 * self.box), -np.inf)
 
     def L(self, x):
-        return -0.5 * self.scale * ((x - 1.0) ** 2).sum(-1)
+        v = -0.5 * self.scale * ((x - 1.0) ** 2).sum(-1)
+        if self.hole is not None:
+            v = np.where(x[:, 0] > self.hole, -np.inf, v)
+        return v
 
     def q(self, x):
         return self.flow.log_prob(x)
@@ -98,7 +102,7 @@ def run(opts, scale=1.0, seed=1, dims=2, n=30, fail_at=None, resume_from=None, c
     """one SMC run; returns a record"""
     kw = dict(opts)
     # `_box`: half-width of the prior support; a narrow box makes the proposal draw points outside the prior (several proposal rounds)
-    pr = Problem(dims=dims, scale=scale, seed=seed, fail_at=fail_at, box=kw.pop("_box", 10.0))
+    pr = Problem(dims=dims, scale=scale, seed=seed, fail_at=fail_at, box=kw.pop("_box", 10.0), hole=kw.pop("_hole", None))
     s = pr.sampler()
     payloads = []
     user_cb = kw.pop("_user_callback", False)
@@ -274,6 +278,7 @@ GRID_QUICK = [
     dict(n_steps=5, adaptive=True), dict(adaptive=True, target_efficiency=0.9), dict(adaptive=True, target_efficiency=0.1, min_step=0.0),
     dict(adaptive=True, _user_callback=True),
     dict(adaptive=True, _box=1.5), dict(n_steps=4, adaptive=False, _box=2.5, n_final_samples=40),
+    dict(n_steps=4, adaptive=False, _hole=1.5), dict(adaptive=True, _hole=2.0, min_step=0.05),
 ]
 
 
@@ -514,7 +519,36 @@ def native_C10(tier, seed):
 
 
 def native_C17(tier, seed):
-    return _collect(tier, seed, counting_failures, "instrumented user callables over full runs")
+    res = _collect(tier, seed, counting_failures, "instrumented user callables over full runs (incl. narrow priors that need several proposal rounds) and over runs resumed from a checkpoint")
+    # resumed runs: a fresh sampler resuming from a checkpoint counts what *its* likelihood was asked, and the prior is attached at every call
+    import pickle
+    from . import native_ckpt as K
+    n_res = 0
+    for ci, o in enumerate([dict(n_steps=4, adaptive=False, checkpoint_every=1), dict(adaptive=True, checkpoint_every=2, min_step=0.05)]):
+        path, d = K._fresh_path("c17")
+        try:
+            ref = K.run_with_file(o, path, seed + ci)
+            ncalls = ref["problem"].like_calls
+            r = K.run_with_file(o, path, seed + ci, fail_at=max(2, ncalls // 2))
+            if r["exc"] is None or not r["payloads"]:
+                continue
+            last = r["payloads"][-1][1]
+            for route, src in (("bytes", last), ("dict", pickle.loads(last))):
+                p2, d2 = K._fresh_path("c17r")
+                try:
+                    rr = K.run_with_file(o, p2, seed + ci, resume_from=src)
+                    rr.update({"opts": dict(o, resume_from=route), "n": 24, "scale": 5.0, "seed": seed + ci})
+                    n_res += 1
+                    for nm, detail in counting_failures(rr):
+                        res["failures"].append({"id": f"resumed-{ci}-{route}", "obligation": nm, "what": f"{nm} [resumed run]: {str(detail)[:200]}",
+                                                "input": {"opts": o, "seed": seed + ci, "route": route, "checkpoint_iteration": r["payloads"][-1][0]}})
+                finally:
+                    K._cleanup(d2)
+        finally:
+            K._cleanup(d)
+    res["cases"] += n_res
+    res["bound"] += f" + {n_res} resumed runs"
+    return res
 
 
 def native_C05(tier, seed):
